@@ -29,7 +29,7 @@ AfterDeadline == Check(t, l, "NothingAfterDeadline", status # "timeout")
 TBlock == e.op = "block" /\ AfterDeadline /\ Block /\ Adv
 TSilence == e.op = "silence" /\ AfterDeadline /\ Silence /\ Adv
 
-Acceptable(d) == FromDest(d, cfg) /\ Parses(d, cfg) /\ (Verify(cfg) => RespondsToQuery(d))
+Acceptable(d) == FromDest(d, cfg) /\ Parses(d, cfg) /\ (Verify(cfg) => RespondsTo(d, cfg.qop))
 
 TDgram ==
     /\ e.op = "dgram"
@@ -39,7 +39,7 @@ TDgram ==
           /\ Check(t, l, "ScriptOrder", e.i = consumed + 1 /\ status = "open")
           \* Return(d) => Genuine(d): never a spoofed, mismatched or malformed datagram
           /\ Check(t, l, "NeverReturnSpoofed", e.obs = "ret" => FromDest(d, cfg))
-          /\ Check(t, l, "NeverReturnMismatched", e.obs = "ret" => (Verify(cfg) => RespondsToQuery(d)))
+          /\ Check(t, l, "NeverReturnMismatched", e.obs = "ret" => (Verify(cfg) => RespondsTo(d, cfg.qop)))
           /\ Check(t, l, "NeverReturnMalformed", e.obs = "ret" => Parses(d, cfg))
           /\ Check(t, l, "TruncationReported", e.obs = "ret" => ~(d.tc /\ Rot(cfg)))
           \* the reply that was asked for ends the exchange
@@ -72,7 +72,7 @@ TEnd ==
                     ELSE e.kind # "ret")
     \* the message handed back is the datagram just taken, not something else
     /\ Check(t, l, "ReturnedIsDelivered",
-             status = "ret" => /\ e.ret.mark = consumed
+             status = "ret" => /\ e.ret.mark = Ev(t)[l - 1].mk
                                /\ e.ret.qr = last.qr /\ e.ret.tc = last.tc
                                /\ e.ret.idm = last.idm /\ e.ret.opm = last.opm)
     \* the asynchronous functions are documented to behave as the synchronous ones
